@@ -63,8 +63,13 @@ def native_replay(gosmt, mpath, m, entry, replay_path, timeout=600):
         rtp = os.path.join(tmp, "rt.go")
         open(rtp, "w").write(rt)
         rep[os.path.join(pkgdir, "zz_verif_rt.go")] = rtp
-        for f in m["files"]:
-            rep[os.path.join(pkgdir, "zz_verif_" + os.path.basename(f))] = os.path.join(os.path.dirname(mpath), f)
+        for i, f in enumerate(m["files"]):
+            src = os.path.join(os.path.dirname(mpath), f)
+            txt = open(src).read()
+            if "package VERIFPKG" in txt:
+                src = os.path.join(tmp, "h%d_%s" % (i, os.path.basename(f)))
+                open(src, "w").write(txt.replace("package VERIFPKG", "package " + pkg, 1))
+            rep[os.path.join(pkgdir, "zz_verif_" + os.path.basename(f))] = src
         entries = sorted(set(h["entry"] for h in m["harnesses"]))
         test = ["package " + pkg, "", 'import ("fmt"; "os"; "testing")', "",
                 "func TestVerifReplay(t *testing.T) {",
